@@ -1,6 +1,7 @@
 import MorfuseModel.Sched.TimerLemmas
 import MorfuseModel.Sched.Machine
 import MorfuseModel.Sched.MachineHostProps
+import MorfuseModel.Sched.TimerRun
 /-!
 # C06 — timed waits: never early, earliest first, exactly once
 
@@ -17,34 +18,6 @@ the order of every marker printed by generated programs under generated frame sc
 under the stated clock discipline.
 -/
 namespace Morfuse.Sched
-
-inductive TOp
-  | add (e due : Nat)        -- `AddElement` (a thread executed `wait`, or was re-timed)
-  | remove (e : Nat)         -- `RemoveElement` (`Stop()` of a timing thread, thread destruction)
-  | setTime (t : Nat)        -- `SetTime` (host frame)
-  | next                     -- one iteration of the `ExecuteRunning` loop
-  deriving Repr, DecidableEq
-
-/-- a timer together with the ledger of everything that ever happened to it -/
-structure TRun where
-  t : Timer := {}
-  added : List (Nat × Nat) := []
-  returned : List ((Nat × Nat) × Nat) := []     -- element and `m_time` at the moment it was returned
-  removed : List (Nat × Nat) := []
-
-def TRun.step (r : TRun) : TOp → TRun
-  | .add e d => { r with t := r.t.add e d, added := (e, d) :: r.added }
-  | .remove e =>
-    match Timer.lastIdxOf r.t.elems e with
-    | some i => { r with t := r.t.remove e, removed := r.t.elems.getD i (0, 0) :: r.removed }
-    | none => r
-  | .setTime time => { r with t := r.t.setTime time }
-  | .next =>
-    match r.t.next with
-    | (some ed, t') => { r with t := t', returned := (ed, r.t.mtime) :: r.returned }
-    | (none, t') => { r with t := t' }
-
-def TRun.run (r : TRun) (ops : List TOp) : TRun := ops.foldl TRun.step r
 
 /-- **Never early.**  Whatever the history, an element is only ever returned (its thread resumed)
     at a time `m_time ≥ due`; with `due = scaledTime + d` that is "not before a frame whose time is
